@@ -147,10 +147,12 @@ func LoadEngine(pkgRel string, overlay map[string][]byte) (*Engine, error) {
 // the path, so that the plain package-level variables (context.Canceled, sync.expunged, io.EOF,
 // ...) exist when library code reached from the repository uses them.
 var initPackagesExtra = map[string]bool{
-	"errors":  true,
-	"io":      true,
-	"sync":    true,
-	"context": true,
+	"errors":       true,
+	"io":           true,
+	"sync":         true,
+	"context":      true,
+	"math/bits":    true,
+	"unicode/utf8": true,
 }
 
 type Worker struct {
